@@ -133,8 +133,8 @@ class TermBuilder:
             if t == ("env",) or t == ("deref", ("env",)):
                 idx = int(e[1]) if e[1].isdigit() else e[1]
                 return ("upvar", self.fn.upvars.get(idx, idx))
-            if t[0] == "agg" and t[1] in ("tuple",) and e[1].isdigit() and int(e[1]) < len(t[3]):
-                return t[3][int(e[1])]
+            if t[0] == "agg" and (t[1] in ("tuple",) or str(t[1]).startswith("closure:")) and e[1].isdigit() and int(e[1]) < len(t[3]):
+                return t[3][int(e[1])]  # (a closure environment read back in a body folded into its creator: the captured operand)
             return ("field", t, e[1])
         if k == "dc":
             # `x?` desugars to `match Try::branch(x) { Continue(v) => v, Break(r) => return .. }`: the payload of Continue is the
